@@ -644,7 +644,7 @@ def expr_dropped(c, which=0):
 
 
 @builder
-def expr_facet(c, which="normal"):
+def expr_facet(c, which="normal", pts_kind="quadrature"):
     V = c.V("Lagrange", 2)
     f = Coefficient(V)
     n = c.n
@@ -653,6 +653,11 @@ def expr_facet(c, which="normal"):
          "rank1_u": lambda: u * f, "rank1_flux": lambda: dot(grad(u), n) * (1 + f), "rank1_grad": lambda: grad(u)}[which]()
     ft = basix.cell.subentity_types(basix.CellType[c.cell])[c.tdim - 1][0]
     pts, _ = basix.make_quadrature(ft, 3)
+    if pts_kind != "quadrature" and c.tdim == 3:
+        # point sets that are invariant under SOME facet permutations only (all on the diagonal s == t: fixed by the reflection, moved
+        # by the rotations; all on the axis t == 0)
+        pts = {"diagonal": np.array([[0.2, 0.2], [0.4, 0.4], [0.1, 0.1]]), "axis": np.array([[0.2, 0.0], [0.7, 0.0]]),
+               "one_point": np.array([[0.3, 0.3]])}[pts_kind]
     return (e, np.ascontiguousarray(pts))
 
 
@@ -1264,6 +1269,8 @@ def custom_rule(cellname, itype, which="unsorted_symmetric"):
     simplex = et in (basix.CellType.interval, basix.CellType.triangle, basix.CellType.tetrahedron)
     if d == 1:
         P = {"unsorted_symmetric": ([[0.5], [0.1], [0.9]], [0.5, 0.25, 0.25]), "nonsymmetric": ([[0.2], [0.7], [0.45]], [0.5, 0.3, 0.2])}[which]
+    elif d == 2 and which == "diagonal":  # all points on s == t: fixed by the reflection of the facet, moved by its rotations
+        P = ([[0.2, 0.2], [0.4, 0.4], [0.1, 0.1]], [0.2, 0.2, 0.1] if simplex else [0.4, 0.4, 0.2])
     elif d == 2 and simplex:
         P = {"unsorted_symmetric": ([[1 / 3, 1 / 3], [0.6, 0.2], [0.2, 0.2], [0.2, 0.6]], [0.2, 0.1, 0.1, 0.1]),
              "nonsymmetric": ([[0.1, 0.2], [0.5, 0.3], [0.25, 0.6]], [0.2, 0.2, 0.1])}[which]
